@@ -98,7 +98,19 @@ def build(rng, case):
                 break
     allpos = G.wrap(cell, np.array(allpos))
     order = rng.permutation(len(allels))
-    S = Atoms(elements=[allels[i] for i in order], positions=allpos[order], cell=cell, charges=[1000.0 + i / 64.0 for i in range(len(allels))])
+    kw = {}
+    if rng.integers(2):
+        # bonds and angles all over the structure (bystanders included): whatever is removed, the terms of the remaining atoms must
+        # still join the same atoms afterwards - an atom "removed twice" shifts them twice
+        from vmon.gen import atomsgen
+        nat = len(allels)
+        b = atomsgen.random_terms(rng, nat, 2, int(rng.integers(2, 2 * nat)))
+        an = atomsgen.random_terms(rng, nat, 3, int(rng.integers(0, nat)))
+        if b:
+            kw.update(bonds=b, bond_types=[0] * len(b), bond_type_coeffs=["harmonic 1.0 1.5"])
+        if an:
+            kw.update(angles=an, angle_types=[0] * len(an), angle_type_coeffs=["harmonic 2.0 109.5"])
+    S = Atoms(elements=[allels[i] for i in order], positions=allpos[order], cell=cell, charges=[1000.0 + i / 64.0 for i in range(len(allels))], **kw)
     return pat, S
 
 
@@ -204,6 +216,23 @@ def judge_call(ctx, st, case, S, P, R, pat, rep, mm, label=""):
             if len(set(kept)) != len(kept) or set(in_ids) - set(kept) != {in_ids[i] for i in removed}:
                 ctx.fail(label + "removed atoms %s differ from the union of the removal sets %s" % (sorted(in_ids.index(c) for c in set(in_ids) - set(kept)), sorted(removed)), witness=w)
             st.count("conservation_checked")
+            # the structure's own terms: exactly those whose atoms all remain, still between the same atoms (atoms named by id)
+            if len(set(kept)) == len(kept):
+                for arrname, width in (("bonds", 2), ("angles", 3)):
+                    before = np.asarray(getattr(S, arrname)).reshape(-1, width)
+                    after = np.asarray(getattr(out, arrname)).reshape(-1, width)
+                    if len(before) == 0:
+                        continue
+                    want = sorted(tuple(in_ids[int(i)] for i in t) for t in before if not any(int(i) in removed for i in t))
+                    try:
+                        got = sorted(tuple(float(out.charges[int(i)]) for i in t) for t in after)
+                    except IndexError:
+                        got = "an index beyond the last atom"
+                    st.count("term_integrity_checked")
+                    if len(sel) >= 2 and share_any:
+                        st.count("term_integrity_checked_with_overlapping_matches")
+                    if got != want:
+                        ctx.fail(label + "%s of the remaining atoms are not what they were: now %s, before (atoms by id) %s" % (arrname, got if isinstance(got, str) else got[:4], want[:4]), witness=w)
     return share_any, found, sel, rsets, expect_raise, exc, w
 
 
@@ -247,6 +276,8 @@ def requirements(stats, tier):
             need.append("outcome class %s not observed (have %s)" % (c, sorted(have)))
     if stats.get("dedicated_error_raised") < 30 or stats.get("conservation_checked") < 100:
         need.append("error raised %d times, conservation checked %d times" % (stats.get("dedicated_error_raised"), stats.get("conservation_checked")))
+    if stats.get("term_integrity_checked_with_overlapping_matches") < (20 if tier == "quick" else 2000):
+        need.append("structures with terms whose matches overlapped and a structure was returned: %d" % stats.get("term_integrity_checked_with_overlapping_matches"))
     if stats.nseen("flag_form") < 8:
         need.append("forms of the ignore flag observed: %s" % sorted(stats.sets.get("flag_form", [])))
     if stats.nseen("topology") < 5 or stats.nseen("repl") < len(REPLS):
